@@ -72,6 +72,23 @@ Definition stats_b (p : N) (h : hist) (added removed qty value : N) : bool :=
   (qty =? qty_executed h mod W) && (value =? val_executed h mod W) &&
   forallb (ev_tx_price_b p) h.
 
+(* C15 (per history WITH rebuilds: events [(ORebuildSnap listing, OutRebuilt)] /
+   [(ORebuildData listing, OutRebuilt)]): the counters are what the last rebuild recorded
+   ([rebuild_base]: one order added per order listed to a [ORebuildData], nothing otherwise) plus
+   the counts / sums over the events since that rebuild ([since_rebuild]); every transaction of
+   the WHOLE history carries the level price.  Without a rebuild this is [StatsAgree]. *)
+Definition StatsAgreeR (p : N) (h : hist) (added removed qty value : N) : Prop :=
+  added = (rebuild_base h + n_added (since_rebuild h)) mod W /\
+  removed = n_removed p (since_rebuild h) mod W /\
+  qty = qty_executed (since_rebuild h) mod W /\ value = val_executed (since_rebuild h) mod W /\
+  Forall (ev_tx_price p) h.
+
+Definition stats_rebuild_b (p : N) (h : hist) (added removed qty value : N) : bool :=
+  let hs := since_rebuild h in
+  (added =? (rebuild_base h + n_added hs) mod W) && (removed =? n_removed p hs mod W) &&
+  (qty =? qty_executed hs mod W) && (value =? val_executed hs mod W) &&
+  forallb (ev_tx_price_b p) h.
+
 (* ------------------------------------------------------------------ *)
 (* C07 (per update call): from the listing before, the update, the returned outcome and the
    listing after (listings compared as finite maps id -> order, so the order of the rows is
